@@ -14,6 +14,7 @@ def run(rep):
     l1(rep, w)
     l2(rep, w)
     l3(rep, w)
+    l4(rep, w)
 
 
 def first_getter_from(f, b, limit=6):
@@ -259,3 +260,45 @@ def l3(rep, w):
                     'and error is reported one line too early', f.loc(t.get('sp')))
     if n < 2:
         raise Broken('C17', 'floor', 'only %d newline comparisons found in the scanner' % n)
+
+
+def l4(rep, w):
+    """the throw site recorded for tracebacks (fiber.error_ip) has exactly two writers: `throw` records it, and delivering
+    the exception to a catch block clears it; runtime_error is its only reader"""
+    r = rep.rule('L4', 'the recorded throw site is set only by an explicit throw and cleared when a catch block takes the exception', floor=3)
+    ws = {}
+    for (g, sp, k) in c01.field_writers(w, 'yarel::object::ObjFiber', 'error_ip'):
+        if k == 'store':
+            ws.setdefault(g.path, []).append(sp)
+    r.check(set(ws) == {VM + 'throw_impl', VM + 'unwind_stack'}, 'writers of ObjFiber.error_ip: throw_impl, unwind_stack',
+            'error_ip is written in %s: errors that are not explicit throws record a site that nothing clears, or the clearing store is gone' % sorted(ws))
+    u = w.require_fn(VM + 'unwind_stack', 'C17')
+    cleared = False
+    guarded = False
+    for bi in u.normal_blocks():
+        for s in u.blocks[bi]['s']:
+            d = s.get('d', {})
+            if d.get('p') and isinstance(d['p'][-1], dict) and d['p'][-1].get('n') == 'error_ip':
+                rr = s['r']
+                pl = op_place(rr.get('o', {}) or {})
+                isnone = rr.get('rv') == 'agg' and rr.get('v') == 'None'
+                if pl is not None:
+                    for b2 in u.blocks:
+                        for s2 in b2['s']:
+                            if s2.get('d', {}).get('l') == pl['l'] and s2['r'].get('rv') == 'agg' and s2['r'].get('v') == 'None':
+                                isnone = True
+                cleared = cleared or isnone
+                # reached only after a handler was found
+                pops = [b for b, t in u.calls() if callee_name(t) == 'yarel::object::ObjFiber::pop_exc_handler']
+                guarded = all(p_ in u.dominators().get(bi, ()) for p_ in pops)
+    r.check(cleared and guarded, 'unwind_stack clears error_ip when it delivers to a catch block', 'unwind_stack no longer resets the recorded throw site: a later '
+            'uncaught error is reported at the line of an earlier, already handled throw', u.loc())
+    t = w.require_fn(VM + 'throw_impl', 'C17')
+    org = origins(t)
+    sets = False
+    for b in t.blocks:
+        for s in b['s']:
+            d = s.get('d', {})
+            if d.get('p') and isinstance(d['p'][-1], dict) and d['p'][-1].get('n') == 'error_ip':
+                sets = True
+    r.check(sets, 'throw_impl records the throw site', 'throw_impl no longer records error_ip', t.loc())
